@@ -542,7 +542,7 @@ func TestVerifC11Batch(t *testing.T) {
 				case 1:
 					sb.WriteString("Some Other Suite/case 9: not in this batch\n")
 				case 2:
-					sb.WriteString("2026/01/01 http: TLS handshake error from 127.0.0.1\n")
+					sb.WriteString(verifkit.Pick(rng, []string{"2026/01/01 http: TLS handshake error from 127.0.0.1\n", "progress 100% for 3 of 5 %s items %d %v %!\n", "path /a%2Fb/%41 escaped\n"}))
 				case 3:
 					sb.WriteString("   \n")
 				default:
